@@ -326,9 +326,14 @@ func c09Gen(s Src) c09Case {
 		}
 		if len(coarser) > 0 {
 			t := pickOne(s, coarser)
-			k := pickOne(s, []int64{1, 1, 2, 3, 10})
+			// … up to amounts of centuries and millennia (beyond what 64 bits of nanoseconds hold)
+			k := pickOne(s, []int64{1, 1, 2, 3, 10, 100, 292, 293, 300, 1000, 5000})
 			n := (k*t+sz-1)/sz + int64(s.Range(-1, 1))
 			c.Amount = strconv.FormatInt(n, 10)
+			if n > 1 && s.Prob(20) {
+				// … and a hair below the boundary: the fraction is dropped, never rounded up
+				c.Amount = strconv.FormatInt(n-1, 10) + pickOne(s, []string{".5", ".999", ".9996", ".99951", ".0004"})
+			}
 			if s.Prob(15) {
 				c.Amount = "-" + c.Amount
 			}
@@ -706,7 +711,7 @@ func c09RunRel(ctx *Ctx, c c09RelCase) {
 
 func TestC09(t *testing.T) {
 	r := newRec("C09",
-		"cases are (start value, + or -, amount, unit); the start value is a literal or (25%) a FHIR date/dateTime/time element handed in as a variable, half of those of MICROSECOND precision with digits below the millisecond: starts = days of the leap cycle 2019-03-01..2023-02-28 (biased to month ends and Feb 29) and the 0001/9999 edges × every Date (3) / DateTime (year..millisecond) / Time (hour..millisecond) precision × offsets {none, Z, +05:30, -11:00}; units = every calendar keyword singular and plural, quoted UCUM-style units and non-temporal units; amounts from {0,1,2,11,12,13,23,24,25,29,30,31,59,60,61,364,365,366,1000,1.5,0.999,…} and their negatives, a third of them on a conversion boundary (k coarser units expressed in the drawn unit, ±1: 365 days, 8759 hours, 31536000000 milliseconds, 53 weeks); an exhaustive stage walks every month end of the cycle × all keywords × precisions; relation cases check monotonicity and (x+q)-q=x; quantity cases check + - < = > within and across units.  non-trivial = amount ≠ 0 and (month-end start, unit finer than the precision, partial precision, clamping/truncation in the model, or a Time); distinct = FNV-64 of the source",
+		"cases are (start value, + or -, amount, unit); the start value is a literal or (25%) a FHIR date/dateTime/time element handed in as a variable, half of those of MICROSECOND precision with digits below the millisecond: starts = days of the leap cycle 2019-03-01..2023-02-28 (biased to month ends and Feb 29) and the 0001/9999 edges × every Date (3) / DateTime (year..millisecond) / Time (hour..millisecond) precision × offsets {none, Z, +05:30, -11:00, ±00:30, ±00:45, +14:00, -12:00 and generated ones}; units = every calendar keyword singular and plural, quoted UCUM-style units and non-temporal units; amounts from {0,1,2,11,12,13,23,24,25,29,30,31,59,60,61,364,365,366,1000,1.5,0.999,…} and their negatives, a third of them on a conversion boundary (k ∈ {1,2,3,10,100,292,293,300,1000,5000} coarser units expressed in the drawn unit, ±1, or a fraction below it: 365 days, 8759 hours, 31536000000 milliseconds, 53 weeks); an exhaustive stage walks every month end of the cycle × all keywords × precisions; relation cases check monotonicity and (x+q)-q=x; quantity cases check + - < = > within and across units.  non-trivial = amount ≠ 0 and (month-end start, unit finer than the precision, partial precision, clamping/truncation in the model, or a Time); distinct = FNV-64 of the source",
 		"M-CAL: proleptic Gregorian day numbers, months clamp to the month end, 1 week = 7 days, a unit finer than the precision is converted first (12 months or 365 days per year, 30 days per month, 24 h, 60 min, 60 s; fractions dropped), amounts above seconds truncate toward zero, seconds keep milliseconds, Time wraps modulo 24 h", "accepted alternatives: quoted/UCUM time units and week/day applied to a Time may be an error or the model value; results outside 0001..9999 may be anything but a panic")
 	runProperty(t, r,
 		Stage[c09Case]{Name: "month-ends", Enum: c09Enum, Run: c09Run},
